@@ -69,8 +69,8 @@ def checked_mc(ctx, module, cfg, name, expect):
 def nproc_for(jobs):
     """worker processes for a batch: a process costs ~10 CPU-s to start (imports + JIT), a numpy job ~1.5 ms,
     a dask job ~0.3 s."""
-    cost = sum(200 if j.get("backend") == "dask" else 1 for j in jobs)
-    return max(1, min(16, (cost + 1499) // 1500))
+    cost = sum(100 if j.get("backend") == "dask" else 1 for j in jobs)
+    return max(1, min(12, (cost + 3999) // 4000))
 
 
 def strip(case):
